@@ -371,6 +371,21 @@ def mon_conn_offence(ctx, conn):
                 returned = True
             elif name == "dispatch" and ga is not None and si > ga[3]:
                 dispatched_after.append(int(args.split(",", 1)[0]))
+    # bounded time, in the stepping harness: at the first quiescent point after the GOAWAY at which no stream is left in
+    # the table and no slot is in use, the connection handler has returned
+    seen_ga = False
+    for si, (op, out) in enumerate(conn.steps):
+        if si < at:
+            continue
+        if any(n == "GA" for n, _ in parse_out(out)):
+            seen_ga = True
+        if any(n == "returned" for n, _ in parse_out(out)):
+            break
+        m = re.match(r"ok strms=(\d+) open=(-?\d+) ", out)
+        if seen_ga and m and int(m.group(1)) == 0 and int(m.group(2)) == 0:
+            viol(ctx, conn, "connection-still-open-with-nothing-promised-left", dict(offence=kind, after=conn.steps[si - 1][0][:80] if si else "-"),
+                 known_class="goaway-never-closes:" + (ga[2] if ga else "-"))
+            break
     if ga is None and not returned:
         viol(ctx, conn, "connection-offence-not-answered", dict(offence=kind))
         return
@@ -397,6 +412,8 @@ def mon_limits(ctx, conn):
                 viol(ctx, conn, "handlers-above-limit", dict(max=d["maxinflight"], limit=mcs), known_class="priority-created-stream")
         if out.startswith("ok strms="):
             d = dict((k, int(v)) for k, v in re.findall(r"(\w+)=(-?\d+)", out))
+            if d.get("body", 0) > mrb:
+                viol(ctx, conn, "buffered-body-above-limit", dict(buffered=d["body"], limit=mrb))
             if d["strms"] > 2 * mcs + 2:
                 viol(ctx, conn, "stream-table-above-limit", dict(strms=d["strms"], limit=mcs), known_class="priority-created-stream")
             if d["ring"] > 256:
